@@ -338,12 +338,24 @@ def check_router(ctx, model):
             ctx.missing("C15-M4", "AssertMinimumReceive message in %s" % p)
         else:
             # pushed after the hop messages were collected and nothing is pushed after it
-            hop = v.calls_to(r"as std::iter::Iterator>::collect$")
-            after_hops = bool(hop) and all(amr in v.reach_strict(hb) for hb, _ in hop)
-            later = [b for b, t in pushes if b in v.reach_strict(amr) and not any(pb == b for pb, _ in pushes if pb == amr)]
-            push_blocks = [b for b, t in pushes if b in v.reach_strict(amr) or b == amr]
-            ctx.ob("C15-M4", "%s|assert-is-last" % p, after_hops and len(push_blocks) == 1,
-                   "assertion message built after the hop messages: %s; pushes at/after it: %s" % (after_hops, push_blocks), v.where(amr))
+            from .common import vec_additions
+            adds = vec_additions(v, r"CosmosMsg")
+            is_amr = lambda os_: any(o.kind == "agg" and o.a.endswith("ExecuteMsg::AssertMinimumReceive") for o in os_)
+            is_hop = lambda os_: any(o.kind == "agg" and o.a.endswith("ExecuteMsg::ExecuteSwapOperation") for o in os_)
+            amr_adds, hop_src, other = [], [hb for hb, _ in v.calls_to(r"as std::iter::Iterator>::collect$")], []
+            for ab, at_, elem, how, at in adds:
+                os_ = v.origins_of_operand(elem, at=at, taint=True)
+                if is_amr(os_):
+                    amr_adds.append(ab)
+                elif is_hop(os_):
+                    hop_src.append(ab)
+                    other.append(ab)
+                else:
+                    other.append(ab)
+            after_hops = bool(hop_src) and len(amr_adds) == 1 and all(amr_adds[0] in v.reach_strict(hb) for hb in hop_src)
+            later = [b for b in other if amr_adds and b in v.reach_strict(amr_adds[0])]
+            ctx.ob("C15-M4", "%s|assert-is-last" % p, after_hops and not later,
+                   "assertion message added after the hop messages: %s; messages added after it: %s" % (after_hops, later), v.where(amr))
             # ... and with a minimum given, no successful return skips it (e.g. a fast path for single-hop routes)
             pred = lambda os_: bool(os_) and all(o.kind == "param" and "Option<cosmwasm_std::Uint128>" in v.local_ty(o.a) for o in os_)
             cut = variant_excluded_edges(v, "option::Option", pred, "Some")
